@@ -288,3 +288,21 @@ Definition memo_step (clear_on_revert : bool) (st : option string * string) (s :
   | Some t => if negb (String.eqb (snd st) "") && String.eqb (snd st) t then st else (Some t, t)
   | None => (None, if clear_on_revert then "" else snd st)
   end.
+
+(* ------------------------------------------------------------------ impurity: compaction of the caller's slice.
+   (output, what the caller's slice holds afterwards).  slices.DeleteFunc moves the kept elements to
+   the front of the SAME backing array and zeroes the tail; the caller's slice header keeps its length. *)
+Fixpoint dedup_strs (seen l : list string) : list string :=
+  match l with
+  | [] => []
+  | x :: r => if existsb (String.eqb x) seen then dedup_strs seen r else x :: dedup_strs (x :: seen) r
+  end.
+Definition dedupe_pure (l : list string) : list string * list string := (dedup_strs [] l, l).
+Definition dedupe_inplace (l : list string) : list string * list string :=
+  let d := dedup_strs [] l in (d, (d ++ repeat "" (List.length l - List.length d))%list).
+
+(* ------------------------------------------------------------------ per-process values: a namer that shortens long
+   names with a hash; [seed] is whatever the process drew at start-up *)
+Definition namer (cap : nat) (h : string -> string -> string) (seed nsname : string) : string :=
+  if Nat.leb (String.length nsname) cap then nsname
+  else String.substring 0 cap nsname ++ "_" ++ h seed nsname.
